@@ -31,6 +31,7 @@ type Engine struct {
 	loadSecs    float64
 	copyMethods map[string]*ssa.Function
 	assumeKindInv bool
+	identAlias    map[string]map[string]string // per function under verification: contract identifier -> renamed local
 	privMemo    map[*ssa.Alloc]bool
 	fieldFnOf   map[string][]fieldFnBinding
 }
@@ -63,7 +64,7 @@ func LoadEngine(repo string, patterns []string, overlay map[string][]byte) (*Eng
 	prog, spkgs := ssautil.Packages(pkgs, ssa.GlobalDebug)
 	prog.Build()
 	e := &Engine{repo: repo, pkgs: pkgs, prog: prog, spkgs: spkgs, sorts: NewSorts(), contracts: NewContractSet(),
-		extSorts: map[string]Sort{}, compSeen: map[string]Sort{}, effMemo: map[string]*effects{}, privMemo: map[*ssa.Alloc]bool{}, inlineLimit: 60, fnByKey: map[string]*ssa.Function{}}
+		extSorts: map[string]Sort{}, compSeen: map[string]Sort{}, effMemo: map[string]*effects{}, privMemo: map[*ssa.Alloc]bool{}, identAlias: map[string]map[string]string{}, inlineLimit: 60, fnByKey: map[string]*ssa.Function{}}
 	for _, p := range pkgs {
 		if p.Module != nil {
 			e.modulePath = p.Module.Path
